@@ -517,7 +517,7 @@ func observe() (o observation, fails []core.Failure) {
 	o.idResp = map[string]response{}
 	var parts []string
 	for _, id := range ids {
-		if idCandidates(o.cfg, id) > 1 {
+		if routesToID("/id/"+id) && idCandidates(o.cfg, id) > 1 {
 			// which object /id/ reaches depends on Go's map iteration order
 			parts = append(parts, hexOf(id)+"=amb")
 			continue
@@ -708,7 +708,7 @@ func indexKey(v any) (string, bool) {
 		if err != nil {
 			return "", false
 		}
-		return strconv.FormatFloat(f, 'g', -1, 64), true // == fmt.Sprintf("%v", f)
+		return strconv.FormatFloat(f, 'f', -1, 64), true // plain decimal notation
 	}
 	return "", false
 }
